@@ -103,6 +103,12 @@ func newFromConfig(ld blobserver.Loader, config jsonconfig.Obj) (storage blobser
 	if nReplicas == 0 {
 		return nil, errors.New("replica: need at least one replica")
 	}
+	if sto.minWritesForSuccess < 0 || sto.minWritesForSuccess > nReplicas {
+		// ReceiveBlob could never reach such a quorum: with every backend
+		// succeeding it would fall out of its loop and return a zero
+		// SizedRef with a nil error.
+		return nil, fmt.Errorf("replica: minWritesForSuccess is %d, must be between 0 and the number of backends (%d)", sto.minWritesForSuccess, nReplicas)
+	}
 	if sto.minWritesForSuccess == 0 {
 		sto.minWritesForSuccess = nReplicas
 	}
